@@ -2,7 +2,7 @@
 # seedconfirm.sh <ID>: confirm a seeded change in a FRESH scratch worktree (/tmp/sc/<ID>/repo with a copy of the
 # deliverables in /tmp/sc/<ID>/out): patch applies, builds, the 36-test suite passes, and (if out/demo.sh exists)
 # the demonstration fails with the change and passes without it.
-ID=$1; SRC=/tmp/seed/$ID/out; BASE=/tmp/sc/$ID; WT=$BASE/repo; OUT=$BASE/out
+ID=$1; SEEDBASE=${SEEDBASE:-/tmp/seed}; SRC=$SEEDBASE/$ID/out; BASE=/tmp/sc/$ID; WT=$BASE/repo; OUT=$BASE/out
 export GOFLAGS=-mod=mod GOPROXY=off GOSUMDB=off GOTOOLCHAIN=local
 rm -rf $BASE; git -C /repo worktree prune; mkdir -p $BASE; cp -r $SRC $OUT
 git -C /repo worktree add --detach -f $WT HEAD >/dev/null 2>&1 || { echo "worktree failed"; exit 2; }
@@ -12,7 +12,7 @@ git apply $OUT/patch.diff || { echo "PATCH DOES NOT APPLY"; exit 2; }
 go build ./... || { echo "BUILD FAILS"; exit 2; }
 go test -count=1 ./agent/banner ./agent/metrics ./agent/sessions ./agent/utils ./agent/websockets ./utils/... 2>&1 | grep -v "no test files" | grep -v "^ok" ; echo "== suite done (non-ok lines, if any, above)"
 if [ -f $OUT/demo.sh ]; then
-  sed -i "s#/tmp/seed/$ID/#$BASE/#g" $OUT/demo.sh
+  sed -i "s#$SEEDBASE/$ID/#$BASE/#g" $OUT/demo.sh
   (cd $BASE && timeout 400 sh $OUT/demo.sh $WT >$BASE/with.log 2>&1); echo "== demo WITH change rc=$? (expect non-zero): $(grep -m2 -i 'fail\|panic' $BASE/with.log | tr '\n' ' ' | cut -c1-220)"
   git checkout -q -- . ; git clean -fdq
   (cd $BASE && timeout 400 sh $OUT/demo.sh $WT >$BASE/without.log 2>&1); echo "== demo WITHOUT change rc=$? (expect 0): $(tail -1 $BASE/without.log | cut -c1-160)"
